@@ -33,5 +33,6 @@ broadcast use axiom_v4_len, axiom_v6_len, axiom_string_utf8, axiom_ascii_utf8, a
 //@include ../parts/vaddr.rs
 //@include ../parts/vbody.rs
 //@include ../parts/vhead.rs
+//@include ../parts/vkeys.rs
 } // verus!
 fn main() {}
